@@ -40,7 +40,10 @@ DIMS = {
     'order': None,      # filled in explore
     # order of the three evaluation entry points on the fresh model (all 6), and the same after a first evaluation
     # with other settings followed by a parameter update (upd-*)
-    'hist': ['mcf', 'cmf', 'fcm', 'mfc', 'cfm', 'fmc', 'upd-cfm', 'upd-fcm', 'upd-cmf', 'upd-mfc'],
+    # (late-*): the last source is added to the already built and already evaluated model, without building again -
+    # the sources then stand in the order they were added in, not in the order build() sorts them into
+    'hist': ['mcf', 'cmf', 'fcm', 'mfc', 'cfm', 'fmc', 'upd-cfm', 'upd-fcm', 'upd-cmf', 'upd-mfc', 'late-mcf',
+             'late-cfm'],
     'species': [['H2O', 'CH4', 'CO2'], ['H2O'], ['CH4'], ['CO2'], ['H2O', 'CO2'], ['CH4', 'CO2'], ['H2O', 'CH4']],
     'abund': [[1e-4, 3e-5, 1e-5], [0.0, 3e-5, 1e-5], [1e-4, 0.0, 1e-5], [1e-4, 3e-5, 0.0], [1e-6, 1e-6, 1e-6],
               [1e-3, 1e-3, 1e-3], [0.0, 0.0, 0.0]],
@@ -79,7 +82,7 @@ def contrib_spec(c, N):
     return c
 
 
-def spec_of(case, order, drop=None):
+def spec_of(case, order, drop=None, full_order=None):
     gases = []
     N = case['N']
     for mol, ab in zip(MOLS, case['abund']):
@@ -92,7 +95,7 @@ def spec_of(case, order, drop=None):
                 gases.append([mol, ['array', [0.0] * (N // 2) + [ab] * (N - N // 2)]])
             else:
                 gases.append([mol, ['array', [float(v) for v in np.geomspace(ab, ab * 1e-2, N)]]])
-    if 'hm' in order:
+    if 'hm' in (full_order or order):
         gases += [['H', ['const', 1e-3]], ['e-', ['const', 1e-7]]]
     return {'kind': 'transmission', 'N': case['N'], 'T': case.get('T', ['dec']), 'gases': gases,
             'contribs': [contrib_spec(c, case['N']) for c in order]}
@@ -121,7 +124,12 @@ def case_fn(case):
     order = case['order']
     fx.reset_caches()
     tabs, cias = install(case)
-    m = fx.build_model(spec_of(case, order))
+    if case['hist'].startswith('late-'):
+        m = fx.build_model(spec_of(case, order[:-1], full_order=order))
+        m.model()
+        m.add_contribution(fx.make_contrib(contrib_spec(order[-1], case['N'])))
+    else:
+        m = fx.build_model(spec_of(case, order))
     clist0 = list(m.contribution_list)
     names0 = [c.name for c in clist0]
 
@@ -131,6 +139,8 @@ def case_fn(case):
 
     res = {}
     hist = case['hist']
+    if hist.startswith('late-'):
+        hist = hist[5:]
     if hist.startswith('upd-'):
         # a first evaluation with a different fill ratio and planet mass, then the update to the settings every
         # reference below assumes; nothing of the first evaluation may survive in what follows
